@@ -1,6 +1,7 @@
 package props
 
 import (
+	"encoding/json"
 	"bytes"
 	"context"
 	"fmt"
@@ -48,7 +49,7 @@ func confLabel(p map[string]string) string {
 func init() {
 	Register(&Prop{ID: "C03",
 		Meta: Meta{Stages: 2, Level: "fault_enumeration",
-			Rule:       "stage 0: a fault-free profile run per protocol configuration (and for net/rpc and gRPC also with the host working through a client that REATTACHED to a plugin another client started) records every schedule point (statement boundary) and kernel event (listen, stdout/stderr pipe write, accept, every socket write, close) the PLUGIN process passes, and every schedule point a HOST goroutine passes, while the host runs start, connect, dispense, unary call, streaming call, brokered connection in both directions, stdio write, ping, a slow call, kill; stage 1: one run per recorded point (first 1 (quick) / 3 (thorough) occurrences) in which the plugin is killed (thorough: also exit(3) and panic) exactly there - for host points: killed exactly while the host goroutine is at that statement, which then stays there 50 ms; plus a group in which the plugin fails DURING the handshake (8 kinds of rejected first line x 0/1/3 further stdout lines behind it x exit/stay/close-stdout x gap), plus seeded runs: crash at a drawn simulated instant with schedule noise, wake-up order noise, and in a quarter of them connection faults instead (resets in the middle of calls, refused and slow connects). Oracle: every host call returns within its bound (no hang), no host panic, calls issued after the death that need the plugin return an error, afterwards Exited() is true and the context given to GRPCPlugin.GRPCClient is cancelled",
+			Rule:       "stage 0: a fault-free profile run per protocol configuration (and for net/rpc and gRPC also with the host working through a client that REATTACHED to a plugin another client started) records every schedule point (statement boundary) and kernel event (listen, stdout/stderr pipe write, accept, every socket write, close) the PLUGIN process passes, and every schedule point a HOST goroutine passes, while the host runs start, connect, dispense, unary call, streaming call, brokered connection in both directions, stdio write, ping, a slow call, kill; stage 1: one run per recorded point (first 1 (quick) / 3 (thorough) occurrences) in which the plugin is killed (thorough: also exit(3) and panic) exactly there - for host points: killed exactly while the host goroutine is at that statement, which then stays there 50 ms; plus every FAILING SYSTEM CALL in turn (a profile with all fault kinds armed but none firing lists every decision point the session reaches - connect refused, connection reset on the k-th write of each socket, listen / pipe / temp file / fork failing - and stage 1 fails exactly one of them per run), plus a group in which the plugin fails DURING the handshake (8 kinds of rejected first line x 0/1/3 further stdout lines behind it x exit/stay/close-stdout x gap), plus seeded runs: crash at a drawn simulated instant with schedule noise, wake-up order noise, and in a quarter of them connection faults instead (resets in the middle of calls, refused and slow connects). Oracle: every host call returns within its bound (no hang), no host panic, calls issued after the death that need the plugin return an error, afterwards Exited() is true and the context given to GRPCPlugin.GRPCClient is cancelled",
 			Exhaustive: "every schedule point and kernel event the plugin process passes in the profiled operation sequence, per protocol configuration (3 quick / 6 thorough), first occurrence (quick) or first three (thorough)"},
 		Plan: func(tier string, seed uint64, stage int, prev []*h.Result) []*k.Spec {
 			confs := append(append([]map[string]string{}, c03Confs[:3]...), c03ReattachConfs...)
@@ -73,9 +74,38 @@ func init() {
 					s.Profile = true
 					out = append(out, s)
 				}
+				// every decision point of a failing system call the session reaches
+				// (connect refused, connection reset on a write, listen / pipe / temp
+				// file / fork failing), to be failed one at a time in stage 1
+				for _, c := range confs[:3] {
+					s := sp("C03", "sysfail-profile/"+confLabel(c), seed, cp(c, "sysfail", "profile"))
+					s.Explicit = true
+					s.Faults = c03SysFaults
+					out = append(out, s)
+				}
 				return out
 			case 1:
 				var out []*k.Spec
+				for _, pr := range prev {
+					if pr.Spec == nil || pr.Spec.P("sysfail", "") != "profile" {
+						continue
+					}
+					var pts map[string]int
+					json.Unmarshal([]byte(pr.Info["faultpoints"]), &pts)
+					capIdx := 10
+					if tier == "thorough" {
+						capIdx = 120
+					}
+					for _, key := range k.SortedKeys(pts) {
+						for i := 0; i < pts[key] && i < capIdx; i++ {
+							s := sp("C03", fmt.Sprintf("sysfail/%s/%s#%d", pr.Info["conf"], key, i), seed, cp(pr.Spec.Params, "sysfail", "at"))
+							s.Explicit = true
+							s.Faults = c03SysFaults
+							s.Overrides = map[string]int64{fmt.Sprintf("%s#%d", key, i): 1}
+							out = append(out, s)
+						}
+					}
+				}
 				maxOcc := 1
 				acts := []string{"kill"}
 				if tier == "thorough" {
@@ -184,6 +214,10 @@ func (s *syncBuf) Bytes() []byte {
 	defer s.mu.Unlock()
 	return append([]byte(nil), s.b.Bytes()...)
 }
+
+const c03SysFaults = "dial.refused,conn.rst,listen.fail,pipe.emfile,fs.enospc,spawn.fail"
+
+var c03SysFaultKeys = []string{"dialrefused/", "rst/", "listenfail/", "emfile/", "enospc/", "spawnfail"}
 
 // first lines Client.Start rejects
 var c03BadLines = []struct{ name, line string }{
@@ -295,13 +329,18 @@ func runC03(r *h.Run) {
 		r.Info["conf"] = c.String() + "+reattached"
 	}
 	profile := r.Spec.Profile
-	armed := len(r.Spec.Triggers) > 0 || r.Spec.P("crashat", "") != ""
+	armed := len(r.Spec.Triggers) > 0 || r.Spec.P("crashat", "") != "" || r.Spec.P("sysfail", "") == "at"
 	phase := "none"
 	if len(r.Spec.Triggers) > 0 {
 		t := r.Spec.Triggers[0]
 		phase = t.On + ":" + strings.SplitN(t.Key, "#", 2)[0]
 		if t.On == "event" {
 			phase = "event:" + strings.SplitN(t.Key, ":", 2)[0]
+		}
+	} else if r.Spec.P("sysfail", "") == "at" {
+		phase = "syscall-fails"
+		for kk := range r.Spec.Overrides {
+			phase += ":" + strings.SplitN(kk, "/", 2)[0]
 		}
 	} else if armed {
 		phase = "timed"
@@ -420,6 +459,18 @@ func runC03(r *h.Run) {
 				r.Violate("setup", "stdio not delivered conf="+c.String(), string(so.Bytes()))
 			}
 		}
+	}
+	if r.Spec.P("sysfail", "") == "profile" {
+		pts := map[string]int{}
+		for key, n := range w.DrawCounts() {
+			for _, pre := range c03SysFaultKeys {
+				if strings.HasPrefix(key, pre) {
+					pts[key] = n
+				}
+			}
+		}
+		js, _ := json.Marshal(pts)
+		r.Info["faultpoints"] = string(js)
 	}
 	// Kill must return, whatever happened
 	ko := r.Do("Kill", 150*time.Second, func() (any, error) { cl.Kill(); return nil, nil })
